@@ -313,6 +313,7 @@ if __name__ == "__main__":
     for kid in st["known"]:
         k = known.get(kid)
         if k and k["status"] == "known": v.known(k["line"].split(" ", 2)[2])
+        else: st["problems"].append({"what": [f"a defect of class {kid} (recorded as FIXED) is back: {st['known'][kid]} occurrence(s)"]})
     for p in st["problems"][:3]:
         v.violation({"property": "C11", "seed": seed, **p, "undischarged_theorems": b["failing"]})
     if not st["problems"] and not b["sound"]:
